@@ -157,6 +157,8 @@ Definition py_eq (a b : pval) : bool :=
 Definition py_in (a : pval) (l : list pval) : bool := existsb (py_eq a) l.
 
 Definition is_none (v : pval) : bool := match v with PNone => true | _ => false end.
+(* isinstance(v, str) *)
+Definition is_str (v : pval) : bool := match v with PStr _ => true | _ => false end.
 
 (* bool(v) *)
 Definition py_truthy (v : pval) : bool :=
@@ -362,10 +364,11 @@ Record Valid (o : opts) : Prop := {
   v_strip_comments : boolish (oget o o_strip_comments (PBool false)) = true;
   v_space_around : boolish (oget o o_use_space_around_operators (PBool false)) = true;
   v_strip_ws : boolish (oget o o_strip_whitespace (PBool false)) = true;
-  (* truncate_strings absent/None, or an int >= 2 and then truncate_char is present (ANY value) *)
+  (* truncate_strings absent/None, or an int >= 2 and then truncate_char is present and a str (validated since the
+     fix of C07-OPT-3 in /repo; before, ANY value passed and TruncateStringFilter raised TypeError while formatting) *)
   v_truncate : match oget o o_truncate_strings PNone with
                | PNone => true
-               | PInt z => Z.leb 2 z && present o o_truncate_char (fun _ => true)
+               | PInt z => Z.leb 2 z && present o o_truncate_char is_str
                | _ => false
                end = true;
   v_indent_columns : present o o_indent_columns boolish = true;
@@ -400,7 +403,7 @@ Definition validb (o : opts) : bool :=
   && boolish (oget o o_strip_whitespace (PBool false))
   && match oget o o_truncate_strings PNone with
      | PNone => true
-     | PInt z => Z.leb 2 z && present o o_truncate_char (fun _ => true)
+     | PInt z => Z.leb 2 z && present o o_truncate_char is_str
      | _ => false
      end
   && present o o_indent_columns boolish
